@@ -100,6 +100,31 @@ def extract_tables():
     return p.stderr
 
 
+def table_search_cases(prop):
+    """when an obligation about the translated tables is broken: programs built FROM the tables the source has now - every built-in
+    name read, tested and written, every operator spelling used - so that the oracle is evaluated where the tables changed"""
+    path = os.path.join(LEAN, "PortusModel", "Generated", "Tables.lean")
+    text = open(path).read() if os.path.exists(path) else ""
+    names, spellings = [], []
+    for key, out in (("srcPrimitives", names), ("srcImplicits", names), ("srcOpTable", spellings)):
+        m = re.search(r"def %s\b[^\n]*:= some \[(.*)\]\s*$" % key, text, re.M)
+        if m:
+            out.extend(re.findall(r'\("((?:[^"\\]|\\.)*)",', m.group(1)))
+    hx = lambda s: s.encode().hex()
+    cases = []
+    for n in names:
+        third = hx(n) if prop == "C13" else "-"
+        for src in ("(def (Report (x 0))) (when true (:= Report.x %s) (report))" % n,
+                    "(def (Report (x 0))) (when (> %s 0) (:= Report.x 1) (report))" % n,
+                    "(def (Report (x 0))) (when true (:= %s 1) (:= Report.x %s) (report))" % (n, n)):
+            cases.append(Case("CMP", "%s - %s" % (hx(src), third), tags=("table-search",)))
+    for s in spellings:
+        for src in ("(def (Report (x 0))) (when true (:= Report.x (%s 6 3)) (report))" % s,
+                    "(def (Report (x 0))) (when (%s 6 3) (report))" % s):
+            cases.append(Case("CMP", "%s - -" % hx(src), tags=("table-search",)))
+    return cases
+
+
 def strip_comments(src):
     # remove /- ... -/ (nested) and -- line comments
     out = []
@@ -188,7 +213,7 @@ STALL = 45  # seconds without an answer before the case in progress is declared 
 MAX_HANGS = 3  # after that many hung cases the rest of the batch is not run (answer NOTRUN)
 
 
-def run_lines(binary, lines, timeout=3600, stall=STALL, hangs=0, extra_env=None):
+def run_lines(binary, lines, timeout=3600, stall=STALL, hangs=0, extra_env=None):  # hangs: 3 per hung case, 1 per died process
     """feed `lines` to a driver and collect `<id> <answer>`; a process that dies gives ABORT for the case in progress, one
     that produces no answer for `stall` seconds is killed and gives HANG for it; the remaining cases are re-run"""
     if not lines:
@@ -246,9 +271,11 @@ def run_lines(binary, lines, timeout=3600, stall=STALL, hangs=0, extra_env=None)
             cid = l.split(" ")[1]
             if cid not in out:
                 out[cid] = "HANG" if hung else "ABORT"
-                hangs += 1 if hung else 0
+                # a died process counts a third of a hang: after MAX_HANGS hangs or 3*MAX_HANGS deaths the rest is not run
+                # (a change that makes thousands of cases die would otherwise restart the driver thousands of times)
+                hangs += 3 if hung else 1
                 rest = [x for x in lines if x.split(" ")[1] not in out]
-                if hangs >= MAX_HANGS:
+                if hangs >= 3 * MAX_HANGS:
                     out.update({x.split(" ")[1]: "NOTRUN" for x in rest})
                 else:
                     out.update(run_lines(binary, rest, timeout, stall, hangs, extra_env))
